@@ -273,3 +273,78 @@ func VerifConcurrentBulks() {
 	}
 	rt.Reach("end")
 }
+
+// vSyncFile: a file with a page cache.  Written bytes become durable only by a Sync that
+// started after the write completed.
+type vSyncFile struct {
+	written []bool
+	durable []bool
+	syncs   int
+}
+
+func vYield() {
+	if rt.Choose(2) == 1 {
+		if rt.Symbolic() {
+			runtime.Gosched()
+		} else {
+			time.Sleep(30 * time.Millisecond)
+		}
+	}
+}
+
+func (f *vSyncFile) WriteAt(p []byte, off int64) (int, error) {
+	vYield() // descheduled before the system call
+	for len(f.written) < int(off)+len(p) {
+		f.written = append(f.written, false)
+		f.durable = append(f.durable, false)
+	}
+	for i := range p {
+		f.written[int(off)+i] = true
+	}
+	return len(p), nil
+}
+
+func (f *vSyncFile) Sync() error {
+	snapshot := append([]bool(nil), f.written...) // what the kernel flushes: the writes completed so far
+	vYield()                                    // the flush takes time: other writers go on meanwhile
+	for i, w := range snapshot {
+		if w {
+			f.durable[i] = true
+		}
+	}
+	f.syncs++
+	return nil
+}
+
+// VerifFileWriterDurable: FileWriter batches the fsyncs of concurrent writers; whatever the
+// interleaving, a Write that returned has its bytes on disk (a later fsync started after its
+// WriteAt completed), at the offset it reports, not overlapping the other writer's bytes.
+func VerifFileWriterDurable() {
+	f := &vSyncFile{}
+	fw := NewFileWriter(f, 0, false)
+	const n = 2
+	var wg sync.WaitGroup
+	offs := make([]int64, n)
+	lens := []int{2, 3}
+	for i := 0; i < n; i++ {
+		wg.Add(1)
+		go func() {
+			defer wg.Done()
+			off, err := fw.Write(make([]byte, lens[i]), stopwatch.New())
+			rt.Assert(err == nil, "write without I/O error succeeds")
+			offs[i] = off
+			// acknowledged: every byte of this write must already be durable
+			for b := 0; b < lens[i]; b++ {
+				ok := int(off)+b < len(f.durable) && f.durable[int(off)+b]
+				rt.Assert(ok, "an acknowledged write is durable (fsync completed after the write)")
+			}
+			rt.Reach("acked")
+		}()
+	}
+	wg.Wait()
+	fw.Stop()
+	rt.Assert(offs[0] != offs[1], "writers get distinct offsets")
+	rt.Assert(offs[0]+int64(lens[0]) <= offs[1] || offs[1]+int64(lens[1]) <= offs[0], "regions of concurrent writers do not overlap")
+	rt.Assert(len(f.written) == lens[0]+lens[1], "the file has no holes")
+	rt.Reach("end")
+}
